@@ -1141,6 +1141,10 @@ def _flush_loop(st, state):
                 if isinstance(v, (FieldObj, ListObj)) or v is None:
                     return False
         if isinstance(n, ast.Call) and isinstance(n.func, ast.Attribute) and n.func.attr in ("step", "append", "add_res", "set", "copy", "extend"):
+            # appending to an untracked local list (the data dump built element by element) is no effect on the tracked state
+            r = n.func.value
+            if n.func.attr in ("append", "extend") and isinstance(r, ast.Name) and isinstance(state.env.get(r.id), (list, Opq)):
+                continue
             return False
         if isinstance(n, ast.Attribute) and isinstance(n.ctx, ast.Store):
             return False
